@@ -57,6 +57,17 @@ def main():
         if res is None: bad.append({'meta': meta, 'problem': 'document not recognised as HTML (harness)'}); continue
         linked = sorted(c.link for c in res.link_contexts if c.linked); inline = sorted(c.link for c in res.link_contexts if c.inline)
         expect_linked = sorted(e.attrib.get('href') or e.attrib.get('src') for e in links if e.tag in ('a', 'area', 'iframe'))
+        # the same page under tag filters (--follow-tags / --ignore-tags) that do not accept <meta>: what the page declares about following its links does not depend on
+        # which tags the user wants links taken from
+        if robots and declares:
+            for ft, it in (({'a', 'img'}, None), ({'a'}, None), (None, {'meta'}), ({'a', 'area', 'iframe', 'img', 'link'}, {'meta', 'script'})):
+                n += 1
+                sc2 = HTMLScraper(StubParser(elements), ElementWalker(), followed_tags=ft, ignored_tags=it, robots=True)
+                try: res2 = sc2.scrape(req, resp)
+                except Exception as e:
+                    bad.append({'meta': meta, 'problem': 'scrape with tag filters raised %s: %s' % (type(e).__name__, e)}); continue
+                linked2 = sorted(c.link for c in res2.link_contexts if c.linked) if res2 is not None else []
+                if linked2: bad.append({'meta': meta, 'links': [e.tag for e in links], 'meta_first': meta_first, 'problem': 'page declares nofollow (%r), tag filters follow=%r ignore=%r: linked URLs %r are in the scrape result' % (meta, sorted(ft) if ft else None, sorted(it) if it else None, linked2)})
         if robots and declares:
             nontrivial += 1
             if linked: bad.append({'meta': meta, 'links': [e.tag for e in links], 'meta_first': meta_first, 'problem': 'page declares nofollow (%r) but linked URLs %r are in the scrape result' % (meta, linked)})
